@@ -178,10 +178,12 @@ pub fn build(c: &Case) -> Built {
         text.push_str("é≤ ");
     }
     let lt = text.len();
+    // With `multibyte` the tag itself holds multi-byte characters as well.
+    let name = if c.multibyte { "né≤" } else { "n" };
     match c.multiline_tag {
-        0 => text.push_str(&format!("<block name=\"n\" {attrs}>")),
-        1 => text.push_str(&format!("<block name=\"n\"\n{indent}      {attrs}>")),
-        _ => text.push_str(&format!("<block name=\"n\"\n{indent}      x=\"1\"\n{indent}      {attrs}\n{indent}      y=\"2\">")),
+        0 => text.push_str(&format!("<block name=\"{name}\" {attrs}>")),
+        1 => text.push_str(&format!("<block name=\"{name}\"\n{indent}      {attrs}>")),
+        _ => text.push_str(&format!("<block name=\"{name}\"\n{indent}      x=\"1\"\n{indent}      {attrs}\n{indent}      y=\"2\">")),
     }
     let gt = text.len() - 1;
     for i in 0..c.after {
@@ -237,6 +239,10 @@ pub fn build(c: &Case) -> Built {
         text.push_str(line);
         if let Some((a, b)) = range {
             key = Some((start + a, start + b));
+            // The second content line, when offending, carries trailing blanks (not part of the key).
+            if i == 1 {
+                text.push_str("  ");
+            }
         }
     }
     text.push('\n');
@@ -384,7 +390,8 @@ fn kit_applicable(c: &KitCase) -> bool {
 fn build_kit(c: &KitCase) -> Built {
     let kit = langkit::kit(c.grammar).expect("kit");
     let mut r = Renderer::new(kit, c.crlf);
-    r.extra_attrs = format!(" {}", rule_attrs(c.rule));
+    // The tag itself holds multi-byte characters.
+    r.extra_attrs = format!(" note=\"é≤ café\" {}", rule_attrs(c.rule));
     r.seg(&Seg::Code(0));
     r.comment(c.form as usize, c.layout, Tags::Open);
     let n = (c.position as usize + 1).max(2);
@@ -413,7 +420,8 @@ fn build_kit(c: &KitCase) -> Built {
             }
         };
         let start = r.offset();
-        r.raw(&line);
+        // The second content line, when offending, carries trailing blanks (not part of the key).
+        if offending && i == 1 { r.raw(&format!("{line}  ")) } else { r.raw(&line) }
         if offending {
             key = Some((start + range.0, start + range.1));
         }
@@ -449,7 +457,7 @@ fn check_kit_case(c: &KitCase, sink: &Sink) {
     let outcome = librun::run(&Input { files: vec![(file.to_string(), built.text.clone())], diff, ..Default::default() });
     let describe = |extra: &str| format!("{c:?}: {extra}\n--- {file} ---\n{}", built.text);
     let form = kit.forms[c.form as usize];
-    let tagged = format!("{}:{:?}{}:{:?}{}", c.grammar, form.kind, form.open.replace(' ', "_"), c.layout, if c.crlf { ":crlf" } else { "" });
+    let tagged = format!("{:?}{}:{:?}{}", form.kind, form.open.replace(' ', "_"), c.layout, if c.crlf { ":crlf" } else { "" });
     let diags: Vec<&Diag> = match &outcome {
         Outcome::Report { diags, blocks } => {
             if blocks.len() != 1 {
